@@ -289,12 +289,23 @@ example : (step exState 5 (.bid "alice" "foo.jkl" "foo.jkl" "300ujkl" (some [("u
 model was written against them; `Generated.keyFns_rns` is recomputed from the source on every
 run (the declarations are listed in Generated/KeyFacts.lean). -/
 def C09_expectedKeys : List (String × String) := [
+  ("x/rns/types/key_bids.go:var _…", "9f4fce2c5ae85adc"),
+  ("x/rns/types/key_bids.go:const BidsKeyPrefix…", "8c36bfcf1d342151"),
   ("x/rns/types/key_bids.go:BidsKey", "8556ba2a0ddcce45"),
+  ("x/rns/types/key_forsale.go:var _…", "9f4fce2c5ae85adc"),
+  ("x/rns/types/key_forsale.go:const ForsaleKeyPrefix…", "a0cae409589f805c"),
   ("x/rns/types/key_forsale.go:ForsaleKey", "430c9e1c73d46ffe"),
+  ("x/rns/types/key_init.go:var _…", "9f4fce2c5ae85adc"),
+  ("x/rns/types/key_init.go:const InitKeyPrefix…", "a31cbd45e6f99593"),
   ("x/rns/types/key_init.go:InitKey", "8a3409ef2feaf0ec"),
+  ("x/rns/types/key_names.go:var _…", "9f4fce2c5ae85adc"),
+  ("x/rns/types/key_names.go:const NamesKeyPrefix…", "96761d5542885872"),
   ("x/rns/types/key_names.go:NamesKey", "2d192e90e18debfc"),
   ("x/rns/types/key_names.go:PrimaryNameKey", "39d23d3a6c18050c"),
+  ("x/rns/types/key_whois.go:var _…", "9f4fce2c5ae85adc"),
+  ("x/rns/types/key_whois.go:const WhoisKeyPrefix…", "1e0c8b1ecefa40f7"),
   ("x/rns/types/key_whois.go:WhoisKey", "0811970c20d7f2b4"),
+  ("x/rns/types/keys.go:const ModuleName…", "816ef172ef11ae9e"),
   ("x/rns/types/keys.go:KeyPrefix", "caccc65e7667915d")]
 
 theorem C09_store_keys_as_modelled : Generated.keyFns_rns = C09_expectedKeys := by decide
